@@ -10,6 +10,7 @@
   observed directly (oracle) around every rejected call of every generated history.
 -/
 import NiVerif.Model.Wfm
+import NiVerif.Model.Atomic
 import NiVerif.Proofs.WfmLemmas
 import NiVerif.Props.C01
 import NiVerif.Props.C10
@@ -114,5 +115,38 @@ theorem rejection_classes (w : W) (a : Arr) (copy : Bool) (s n : Option Int) (e 
           repeat' (split at heq)
           all_goals (first | (cases heq; done) | (injection heq with heq; subst heq; simp [PyErr.base]))
         · cases heq
+
+end Props.C07
+
+/-! ### the order of effects in the source (regenerated on every run): no raise after a change -/
+namespace Props.C07
+open Model.Atomic Gen.Atomic
+
+/-- `append(array[, timestamps])`, `append(waveform(s))` and `load_data` of the numeric waveforms: on every path, in every
+    buffer situation (owning or borrowed, writable or read-only, enough capacity or not), every statement that can raise comes
+    before the first statement that changes observable state -/
+theorem numeric_atomic :
+    atomic numeric_increase_capacity numeric_append_array = true
+    ∧ atomic numeric_increase_capacity numeric_append_waveforms = true
+    ∧ atomic numeric_increase_capacity numeric_load_array = true := by decide +kernel
+
+theorem digital_atomic :
+    atomic digital_increase_capacity digital_append_array = true
+    ∧ atomic digital_increase_capacity digital_append_waveforms = true
+    ∧ atomic digital_increase_capacity digital_load_array = true := by decide +kernel
+
+theorem spectrum_atomic :
+    atomic spectrum_increase_capacity spectrum_append_array = true
+    ∧ atomic spectrum_increase_capacity spectrum_append_spectrums = true
+    ∧ atomic spectrum_increase_capacity spectrum_load_array = true := by decide +kernel
+
+/-- the criterion is not vacuous: the orders the pinned tree had are rejected — timing installed before the copy (read-only
+    buffer), capacity grown before a read-only copy, timing installed before the growth (borrowed buffer), a cached value
+    written before the statement that raises -/
+theorem criterion_rejects_old_orders :
+    atomic [.local, .ifNeedGrowBegin, .resize, .ifNeedGrowEnd] [.check, .mergeTiming, .callGrow, .setTiming, .local, .copy, .setCount] = false
+    ∧ atomic [.local, .ifNeedGrowBegin, .resize, .ifNeedGrowEnd] [.check, .mergeTiming, .callGrow, .local, .copy, .setTiming, .setCount] = false
+    ∧ atomic numeric_increase_capacity [.check, .mergeTiming, .setTiming, .callGrow, .local, .copy, .setCount] = false
+    ∧ atomic numeric_increase_capacity [.setStart, .setCount, .callGrow, .copy, .setCount] = false := by decide +kernel
 
 end Props.C07
